@@ -138,6 +138,13 @@ def scenarios(chk):
                     fl = [(names[0], "ok", b"aaa"), (names[1], "ok", b"bbb")]
                     fl.insert(pos, (bad, "ok", b"evil"))
                     out.append((kind, op, ctl, "ok", fl))
+            # names listed ONLY in the Checksums-Sha1 / Checksums-Sha256 sections (a control file lists names there too):
+            # whatever they are, nothing outside the two directories may be read, overwritten, moved or deleted
+            for bad in (b"../outside/canary", b"../rootcanary", b"a/../../outside/canary", b"sub/inner"):
+                for pos in (0, 2):
+                    fl = [(names[0], "ok", b"aaa"), (names[1], "ok", b"bbb")]
+                    fl.insert(pos, (bad, "cksum", b"canary"))
+                    out.append((kind, op, ctl, "ok", fl))
     # names with a space cannot be listed in a .changes Files line (split on single blanks): keep them for .dsc only
     out = [s for s in out if not (s[0] == "changes" and any(b" " in n for n, _, _ in s[4]))]
     return out
@@ -154,6 +161,9 @@ def run(chk):
             args += [n, st.encode(), c]
         icases.append(("upload", args))
     impl = chk.run_impl(icases)
+    # names listed only in the checksum sections are not referenced files: the operations ignore them (the model and the
+    # predicates below see the names in Files); the canary predicate judges them
+    scs = [(kind, op, ctl, ctlstate, [f for f in files if f[1] != "cksum"]) for kind, op, ctl, ctlstate, files in scs]
     mcases = []
     for (kind, op, ctl, ctlstate, files), i in zip(scs, impl):
         text = bytes.fromhex(i.rsplit(" ", 1)[1][1:]) if " " in i else b""
